@@ -209,7 +209,7 @@ class C14(Prop):
         tags = ["raked" if case["rake_pot"] else "unraked",
                 "cap-binding" if sum(io["rake"]) == case["cap"] and case["rake_pot"] else "cap-slack",
                 f"levels={min(4, len(set(case['bal'])))}"]
-        return Verdict(agree, holds, "; ".join(why), key, tags)
+        return Verdict(agree, holds, " ;; ".join(why), key, tags)
 
     def shrink_candidates(self, case):
         bal = case["bal"]
@@ -319,6 +319,6 @@ class C02(Prop):
         tags = ["has-max" if hm else "no-max", "raked" if case["rake_pot"] else "unraked",
                 "tie-tier" if any(len(t) > 1 for t in case["tiers"]) else "single-tiers",
                 f"contender-levels={min(4, len(lv))}", "folded-money" if len(flat) < n else "all-contend"]
-        return Verdict(agree, holds, "; ".join(why), key, tags)
+        return Verdict(agree, holds, " ;; ".join(why), key, tags)
 
     shrink_candidates = C14.shrink_candidates
